@@ -949,6 +949,22 @@ class Mini:
             if nm == "extend_from_slice":
                 recv.extend(args[0])
                 return ()
+            if nm == "resize" and isinstance(args[0], int):
+                if args[0] > (1 << 26):
+                    raise Panic(f"allocation of {args[0]} elements")
+                if args[0] < len(recv):
+                    del recv[args[0]:]
+                else:
+                    recv.extend([args[1]] * (args[0] - len(recv)))
+                return ()
+            if nm == "is_empty":
+                return len(recv) == 0
+            if nm == "clear":
+                del recv[:]
+                return ()
+            if nm == "truncate" and isinstance(args[0], int):
+                del recv[args[0]:]
+                return ()
         if p.startswith("std::array::<impl [T; N]>::") and nm in ("as_slice", "as_mut_slice"):
             return recv
         if p in ("std::string::String::as_bytes", "std::str::<impl str>::as_bytes", "std::string::String::as_str", "std::string::String::into_bytes") and isinstance(recv, list):
